@@ -17,7 +17,7 @@ from typing import Dict, List, Optional, Set, Tuple
 from ..cfg import CFG
 from ..ledger import POOL_MOD, PoolModel
 from ..model import (AnalysisError, FuncInfo, Repo, dotted, norm,
-                     walk_no_nested)
+                     walk_no_nested, module_attr_writes)
 
 SCOPE_NOTE = ('scope: classes Block, BasePool, Pool of '
               'edb/server/connpool/pool.py; _NaivePool (test-only, documented '
@@ -393,12 +393,15 @@ def run(repo: Repo, ctx) -> None:
     for m in repo.modules_in('edb'):
         if m.name == 'edb.server.connpool.pool2':
             continue   # separate Rust-backed pool with its own counter
-        for f in repo._funcs_of(m):
+        for attr, kind, node in module_attr_writes(m):
+            if attr not in WRITERS:
+                continue
+            f = repo.enclosing_function(m, node)
+            if f is None:
+                continue
             if f.cls is not None and f.cls.name == '_NaivePool':
                 continue
-            for attr, kind, node in _attr_writes(f.node):
-                if attr not in WRITERS:
-                    continue
+            if True:
                 if m.name != POOL_MOD:
                     # same attribute name on an unrelated object?
                     if attr in ('conns', 'in_use'):
